@@ -1,6 +1,8 @@
 HOOK_COMMITS = []
 NOTES = "Model checking = bounded exhaustive exploration of the real code against reference models; see DESIGN.md. Exit 0 held / 1 violation / >=2 machinery failure."
 ENGINES = [
+    {"name": "vc_update", "path": "harness/src/engines/vc_update.rs", "serves_properties": ["C10"],
+     "kind_free_text": "stateless exhaustive enumeration of documents x outcome vectors x repeated update application"},
     {"name": "vc_gen", "path": "harness/src/engines/vc_gen.rs", "serves_properties": ["C09"],
      "kind_free_text": "stateless exhaustive enumeration of outputs x settings through generators -> parsers -> validate"},
     {"name": "vc_md", "path": "harness/src/engines/vc_md.rs", "serves_properties": ["C06"],
@@ -73,5 +75,10 @@ CHECKS.append(
      "technique": "bounded exhaustive enumeration of outputs (line sequences over 24 syntax-colliding / binary line kinds) x exit codes x commands x formats x escapers x create/update/convert through the real generators, parsers and validate",
      "text": "For every enumerated output, exit code, command shape, format, escaper and path the real generator (create, update from a stale document, convert to the other format) writes a document; it must parse with the real parser to exactly one test with the same shell expression, and that test must validate Ok against the very same Output.",
      "note": "in-process (Output constructed directly); bounded output length (2 / 3 lines) over the stated line alphabet"})
+CHECKS.append(
+    {"id": "C10", "engine": "vc_update", "category": "exploration", "design_ref": "DESIGN.md §2 C10",
+     "technique": "bounded exhaustive enumeration of (document, per-test outcome vector) with repeated application of the real MarkdownUpdateGenerator; invariants judged with the reference tokenizer",
+     "text": "Every accepted document of the segment family (with truncations) x every outcome vector over {pass, changed output, changed exit code, unterminated output} is updated by the real generator with outcomes from the real validate, three times in a row: lines outside scrut blocks, block languages/configs/comments and the bodies of passing tests must be preserved, the result must re-parse to the same commands, and the 2nd and 3rd application must change nothing.",
+     "note": "Markdown update generator in-process; documents up to 2/3 segments; outputs synthesised per outcome class"})
 claimed = {c["id"] for c in CHECKS}
 NOT_APPLICABLE = [{"property_id": p, "reason": "check not built yet (work in progress; planned in DESIGN.md)"} for p in ALL if p not in claimed]
